@@ -27,7 +27,12 @@ VARIANTS = ([('sym', 'full'), ('sym', 'empty')] + [('sym', m.name) for m in rig.
             [('priv', 'SIGN'), ('priv', 'empty'), ('priv', 'full'), ('pub', 'VERIFY'), ('pub', 'empty'),
              ('pub', 'full'), ('secret', 'full'), ('secret', 'empty'), ('secret', 'MAC_GENERATE'),
              ('secret', 'DERIVE_KEY'), ('cert', 'full'), ('cert', 'empty'), ('split', 'full'),
-             ('split', 'empty'), ('opaque', 'none')])
+             ('split', 'empty'), ('opaque', 'none'),
+             # every usage bit the protocol defines except the nine that gate an operation of this server (Export, Key
+             # Agreement, Unrestricted, the 2.0-only bits ...): none of them entitles a key to any gated use
+             ('sym', 'others'), ('priv', 'others'), ('pub', 'others'), ('secret', 'others')])
+
+USE_SYMBOLS = ('encrypt', 'decrypt', 'sign', 'signature_verify', 'mac', 'derive_key', 'derive_key_2', 'wrap')
 
 
 def plan(tier):
@@ -61,6 +66,8 @@ def masks_of(label):
         return list(rig.ALL_MASKS)
     if label in ('empty', 'none'):
         return []
+    if label == 'others':
+        return [m for m in M if m not in rig.ALL_MASKS]
     return [M[label]]
 
 
@@ -213,7 +220,8 @@ def run_variant(ctx, kind, label):
             fp = queue.pop(0)
             path, st = states[fp]
             for sym in SYMBOLS:
-                for version in ((1, 2), (2, 0)) if sym in ('modify_name', 'add_group', 'delete_name', 'set_sensitive') else ((1, 2),):
+                for version in ((1, 2), (2, 0)) if (sym in ('modify_name', 'add_group', 'delete_name', 'set_sensitive') or
+                                                    (label == 'others' and sym in USE_SYMBOLS)) else ((1, 2),):
                     work = d + '/work.sqlite'
                     shutil.copyfile(path, work)
                     w = rig.Server(work)
